@@ -492,7 +492,38 @@ class CallMixin:
         res = V(Ref(ListT(res.kind.target.elem, True)), res.term)
         self.set_ghost_flag(st, res.term, "oneshot", z3.BoolVal(True))
         self.set_ghost_flag(st, res.term, "consumed", z3.BoolVal(False))
+        st.heap[self.H.n_fld("itercursor", I)] = z3.Store(self.H.fld_arr(st, "itercursor", I), res.term, z3.IntVal(0))
         return res
+
+    def bi_next(self, args, kw, st, node):
+        """next(it[, default]) on an iterator created by iter(): reads the item at the iterator's cursor and
+        advances it.  The cursor is a field of the iterator object, so loops that advance it must declare it."""
+        it = args[0]
+        if not (is_list(it.kind) and it.kind.target.oneshot_possible):
+            raise Unsupported("next() on something that is not an iterator created by iter()", node)
+        pos_arr = self.H.fld_arr(st, "itercursor", I)
+        pos = self.sel(st, pos_arr, it.term)
+        n = self.llen(st, it)
+        self.check_frame(st, "field:itercursor", it.term, node)
+        has = z3.And(pos >= 0, pos < n)
+        if len(args) < 2:
+            self.oblige(st, "safe", "next-not-exhausted", has, node, exc="StopIteration")
+            val = self.lget(st, it, pos)
+            st.heap[self.H.n_fld("itercursor", I)] = z3.Store(pos_arr, it.term, pos + 1)
+            return val
+        s1, s2 = st.fork(), st.fork()
+        s1.assume(has)
+        s2.assume(z3.Not(has))
+        v1 = self.lget(s1, it, pos)
+        s1.heap[self.H.n_fld("itercursor", I)] = z3.Store(self.H.fld_arr(s1, "itercursor", I), it.term, pos + 1)
+        s1.trace.append("next-item")
+        s2.trace.append("next-default")
+        def gen():
+            if self.feasible(s1):
+                yield v1, s1
+            if self.feasible(s2):
+                yield args[1], s2
+        return gen()
 
     def bi_tuple(self, args, kw, st, node):
         if not args:
@@ -938,7 +969,14 @@ class CallMixin:
         st.env[vn] = V(INT, k)
         outer_facts = st.ghost.get("__facts__", [])
         st.ghost["__facts__"] = []
-        body = self.ev1(lam.body, st)
+        if not skolem:
+            # below a quantifier that stays a quantifier nothing may be replaced by a constant: the inner
+            # variable may depend on this one (quantifier alternation)
+            st.ghost["__pol__"] = 0
+        try:
+            body = self.ev1(lam.body, st)
+        finally:
+            st.ghost["__pol__"] = pol
         inner = st.ghost.get("__facts__", [])
         from .solve import _mentions
 
